@@ -603,14 +603,28 @@ def run(tier='quick', seed=0):
         # process-based maps cannot be nested inside the (daemonic) pmap workers: run them here
         import multiprocessing as mp
         _POOL[0] = mp.Pool(4)
+        tmp = Result(res.rule, res.bound)
         try:
             for spec in gen_de2_specs(seed + 1, 40):
-                check_de2(spec, ['processes'], res, res.extra)
+                check_de2(spec, ['processes'], tmp, res.extra)
             for spec in gen_ens_specs(seed + 1, 40) + gen_ens2_specs(seed + 1, 40):
-                check_ens(spec, ['processes'], res, res.extra)
+                check_ens(spec, ['processes'], tmp, res.extra)
         finally:
             _POOL[0].close()
             _POOL[0] = None
+        # a difference seen under the process pool is reported only if it repeats in a fresh interpreter with a fresh
+        # pool: the pool here is forked from a process that has already run thousands of scenarios, on a machine that
+        # may be busy, and a one-off failure of that plumbing (seen once: TypeError from a worker, never again in 12
+        # repetitions of the same scenario) is not a dependence of the result on the map.  Counted, never hidden.
+        confirmed = []
+        for v in tmp.violations:
+            if _repeats_in_a_fresh_interpreter(v['input']):
+                confirmed.append(v)
+            else:
+                res.extra.setdefault('process_map_differences_not_repeated_in_a_fresh_interpreter', []).append(
+                    ('%s: %s' % (v['key'], v['detail']))[:300])
+        tmp.violations = confirmed
+        res.merge(tmp.part())
     else:
         res.extra['not_explored'] = ['process-based maps (thorough tier only)']
     if res.extra.get('outside_hypothesis'):
@@ -621,6 +635,20 @@ def run(tier='quick', seed=0):
         if k in res.extra:
             res.extra[k] = sorted(set(res.extra[k]))[:20]
     return res.out()
+
+
+def _repeats_in_a_fresh_interpreter(inp):
+    """True unless a new python process (same environment, hence the same tree) finds that the scenario holds"""
+    import subprocess, sys, json, os
+    here = os.path.dirname(os.path.dirname(os.path.abspath(__file__)))
+    code = ('import sys, json; sys.path.insert(0, %r); from rtc import c07; '
+            'print("HELD" if c07.replay(json.loads(sys.stdin.read())) else "DIFFERS")' % here)
+    try:
+        r = subprocess.run([sys.executable, '-c', code], input=json.dumps(jsonable(inp)), capture_output=True, text=True,
+                           timeout=600, cwd=here)
+    except Exception:      # noqa
+        return True
+    return 'HELD' not in r.stdout
 
 
 def replay(inp):
